@@ -25,7 +25,7 @@ ASSUMPTIONS = [
     "mesh model: faces as cyclic corner lists with float64 lon/lat read from the grid's three primary variables; expected vertices are float32(lon, lat) or cartopy's projection of them (cartopy is trusted as the projection oracle)",
     "a face crosses the antimeridian iff two cyclically consecutive corners differ by >= 180 degrees of longitude; faces whose largest |dlon| is within 1e-3 of 180 are not generated",
     "split pieces are judged structurally (every face corner occurs, every other piece vertex lies on |lon| = 180 between the straight-line and great-circle crossing latitudes of a crossing edge, no piece edge spans >= 180, total planar area within a factor 2 of the unwrapped face; zero-width slivers ignored) and only for faces that neither touch nor enclose a pole",
-    "with a projection the vertices may be the projected or (as 'ignore' does for collections) the raw lon/lat corners: the statement allows either; projections with central longitude != 0 are judged only against the fresh twin",
+    "with a projection the vertices may be the projected or (as 'ignore' does for collections) the raw lon/lat corners: the statement allows either; longitudes and the antimeridian are taken relative to the projection's central meridian (the map seam), faces with a node within 1e-3 deg of that seam are not judged; faces the projection cannot map (Orthographic far side) may be present or absent",
     "row/path order is the face order (that is what attaches a polygon to 'its' face)",
     "caller edits are never applied to the GeoDataFrame returned by Grid.to_geodataframe(cache=True) (that object is the cache itself: known finding of C19)",
 ]
@@ -50,8 +50,7 @@ MESHES = [
 ]
 FILES = [{"kind": "file", "path": "ugrid/quad-hexagon/grid.nc"}, {"kind": "file", "path": "mpas/QU/mesh.QU.1920km.151026.nc"}]
 PES = ["exclude", "split", "ignore"]
-PROJS = [None, None, None, "robinson", "robinson", "mollweide", "pc180"]
-JUDGED_PROJ = (None, "robinson", "mollweide", "pc0")
+PROJS = [None, None, None, None, "robinson", "robinson", "mollweide", "pc180", "rob100", "ortho", "ortho2"]
 DERIVE = ["node_x", "face_lon", "face_areas", "n_nodes_per_face", "edge_node_connectivity", "bounds", "face_x", "edge_lon"]
 
 
@@ -111,51 +110,70 @@ def shoelace(xy):
     return 0.5 * abs(np.dot(x, np.roll(y, -1)) - np.dot(y, np.roll(x, -1)))
 
 
-class FaceModel:
-    """Everything the oracle needs about the faces of one grid, from the mesh model only."""
+class Frame:
+    """The faces of one grid as seen under one projection: longitudes relative to the projection's
+    central meridian (the library shifts them before building shells), the faces crossing that
+    frame's seam, and the projected corner coordinates."""
 
-    def __init__(self, mesh):
+    def __init__(self, mesh, proj_name):
+        from sim import model as M
+        from sim import ops as O
+
         self.mesh = mesh
         self.n = mesh.n_face
-        self.lon32 = mesh.lon.astype(np.float32).astype(np.float64)
+        self.proj_name = proj_name
+        self.proj = O.projection(proj_name)
+        self.lon0 = 0.0
+        if self.proj is not None:
+            pp = self.proj.proj4_params
+            self.lon0 = float(pp.get("lon_0", pp.get("pm", 0.0)))  # PlateCarree keeps it as "pm"
+        lon = mesh.lon if self.lon0 == 0.0 else M.wrap180(mesh.lon - self.lon0)
+        self.lon = lon
+        self.lon32 = lon.astype(np.float32).astype(np.float64)
         self.lat32 = mesh.lat.astype(np.float32).astype(np.float64)
-        self.sure, self.unsure = mesh.antimeridian_faces(margin=1e-3)
+        self.sure, self.unsure = [], []
+        for f, nodes in enumerate(mesh.faces):
+            lo = lon[nodes]
+            m = float(np.max(np.abs(np.roll(lo, -1) - lo)))
+            on_seam = self.lon0 != 0.0 and bool(np.any(np.abs(np.abs(lo) - 180.0) < 1e-3))
+            if abs(m - 180.0) <= 1e-3 or on_seam:
+                self.unsure.append(f)
+            elif m >= 180.0:
+                self.sure.append(f)
         self.cross = set(self.sure)
         self.pole_node = set()
         self.pole_enclosed = set()
         for f, nodes in enumerate(mesh.faces):
-            la = mesh.lat[nodes]
-            if np.any(np.abs(la) > 89.999):
+            if np.any(np.abs(mesh.lat[nodes]) > 89.999):
                 self.pole_node.add(f)
-            lo = mesh.lon[nodes]
-            d = (np.roll(lo, -1) - lo + 180.0) % 360.0 - 180.0
+            d = (np.roll(lon[nodes], -1) - lon[nodes] + 180.0) % 360.0 - 180.0
             if abs(abs(d.sum()) - 360.0) < 1.0:
                 self.pole_enclosed.add(f)
-        self._proj = {}
+        self.pxy = None
+        self.undefined = set()  # faces with a corner the projection cannot map
+        if self.proj is not None:
+            import cartopy.crs as ccrs
+
+            xyz = self.proj.transform_points(ccrs.PlateCarree(), mesh.lon, mesh.lat)
+            self.pxy = xyz[:, :2].astype(np.float32).astype(np.float64)
+            for f, nodes in enumerate(mesh.faces):
+                if not np.all(np.isfinite(self.pxy[nodes])):
+                    self.undefined.add(f)
 
     def raw_ring(self, f):
         nodes = self.mesh.faces[f]
         return np.stack([self.lon32[nodes], self.lat32[nodes]], axis=-1)
 
-    def proj_ring(self, f, proj_name):
-        from sim import ops as O
-
-        if proj_name not in self._proj:
-            import cartopy.crs as ccrs
-
-            p = O.projection(proj_name)
-            xyz = p.transform_points(ccrs.PlateCarree(), self.mesh.lon, self.mesh.lat)
-            self._proj[proj_name] = xyz[:, :2].astype(np.float32).astype(np.float64)
-        return self._proj[proj_name][self.mesh.faces[f]]
-
-    def match_face(self, coords, f, proj_name):
-        """None if the closed coordinate sequence is face f's ring (raw lon/lat or projected)."""
+    def match_face(self, coords, f):
+        """None if the closed coordinate sequence is face f's ring: its (lon, lat) corners in this
+        frame, or their images under the projection."""
         got = dedup_ring(coords, 1e-4)
-        want = dedup_ring(np.vstack([self.raw_ring(f), self.raw_ring(f)[:1]]), 1e-4)
+        rr = self.raw_ring(f)
+        want = dedup_ring(np.vstack([rr, rr[:1]]), 1e-4)
         if ring_equal(got, want, 2e-4):
             return None
-        if proj_name is not None:
-            wp = self.proj_ring(f, proj_name)
+        if self.pxy is not None and f not in self.undefined:
+            wp = self.pxy[self.mesh.faces[f]]
             scale = max(1.0, float(np.max(np.abs(wp))))
             wantp = dedup_ring(np.vstack([wp, wp[:1]]), 1e-6 * scale)
             gotp = dedup_ring(coords, 1e-6 * scale)
@@ -174,14 +192,13 @@ class FaceModel:
         for j in range(k):
             a, b = ring[j], ring[(j + 1) % k]
             if abs(a[0] - b[0]) >= 180.0:
-                # where the edge meets the antimeridian: anywhere between the straight (lon, lat)
+                # where the edge meets the seam: anywhere between the straight (lon, lat)
                 # interpolation and the great-circle arc (which bulges poleward) is accepted
                 lo, hi = min(a[1], b[1]), max(a[1], b[1])
                 from sim import model as M
 
                 pa, pb = M.unit(a[0], a[1]), M.unit(b[0], b[1])
                 nrm = np.cross(pa, pb)
-                # great circle (normal nrm) meets the meridian plane y = 0 at x < 0
                 d = np.cross(nrm, np.array([0.0, 1.0, 0.0]))
                 if np.linalg.norm(d) > 1e-12:
                     d = d / np.linalg.norm(d)
@@ -198,8 +215,7 @@ class FaceModel:
         for pc in pieces:
             p = dedup_ring(pc, 1e-6)
             if len(p) < 3:
-                # zero-width sliver (a face that only touches the antimeridian): covers nothing
-                continue
+                continue  # zero-width sliver of a face that only touches the seam
             solid += 1
             d = np.abs(np.roll(p[:, 0], -1) - p[:, 0])
             if np.any(d >= 180.0):
@@ -217,17 +233,55 @@ class FaceModel:
                     continue
                 return f"piece vertex ({x:.4f}, {y:.4f}) is neither a corner of face {f} nor on the antimeridian between the ends of a crossing edge"
         if not all(seen):
-            return f"corner(s) {[i for i, s in enumerate(seen) if not s]} of face {f} are in none of its pieces"
+            return f"corner(s) {[i for i, s2 in enumerate(seen) if not s2]} of face {f} are in none of its pieces"
+        if solid == 0:
+            return f"face {f} came back as degenerate pieces only"
         un = ring.copy()
         un[:, 0] = np.where(un[:, 0] < 0, un[:, 0] + 360.0, un[:, 0])
         want = shoelace(un)
-        if solid == 0:
-            return f"face {f} came back as degenerate pieces only"
         # planar sanity bound only: the cut follows the great circle, the reference is the straight
         # (lon, lat) polygon, and for large high-latitude faces the two differ by tens of percent
         if want > 0 and not (0.5 * want <= area <= 2.0 * want):
             return f"pieces of face {f} have total area {area:.4f}, the face {want:.4f}"
         return None
+
+    def expected(self, pe):
+        """(faces in order, optional subset): 'exclude' drops the faces crossing this frame's seam;
+        faces the projection cannot map may or may not be present."""
+        faces = [f for f in range(self.n) if not (pe == "exclude" and f in self.cross)]
+        return faces, set(self.undefined)
+
+
+class FaceModel:
+    def __init__(self, mesh):
+        self.mesh = mesh
+        self.frames = {}
+
+    def frame(self, proj_name):
+        if proj_name not in self.frames:
+            self.frames[proj_name] = Frame(self.mesh, proj_name)
+        return self.frames[proj_name]
+
+
+def align(items, faces, optional, match):
+    """Attach each item to a face, in face order; faces in ``optional`` may be skipped.
+    Returns (owner list, None) or (None, reason)."""
+    owner = []
+    p = 0
+    for j, it in enumerate(items):
+        while p < len(faces) and faces[p] in optional and match(it, faces[p]) is not None:
+            p += 1
+        if p >= len(faces):
+            return None, f"item {j} of {len(items)} has no face left to belong to"
+        why = match(it, faces[p])
+        if why:
+            return None, f"item {j}: {why}"
+        owner.append(faces[p])
+        p += 1
+    rest = [f for f in faces[p:] if f not in optional]
+    if rest:
+        return None, f"{len(items)} items, but faces {rest[:8]} have none"
+    return owner, None
 
 
 def geom_rings(geom):
@@ -258,13 +312,17 @@ class Convert(Profile):
     def gen_cfg(self, tier, jit):
         return {"tier": tier, "jit": bool(jit), "max_steps": 14 if tier == "thorough" else 9}
 
-    def gen_conv(self, rng):
+    def gen_conv(self, rng, prev=()):
         r = rng.random()
         pe = rng.choice(PES)
         proj = rng.choice(PROJS)
-        op = {"pe": pe, "proj": proj, "cache": rng.random() < 0.75, "override": rng.random() < 0.2}
-        if r < 0.25:
-            op.update(op="gdf", engine=rng.choice(["spatialpandas", "geopandas"]), ret_idx=rng.random() < 0.2)
+        if prev and rng.random() < 0.45:
+            # come back to the arguments of an earlier conversion (cache hits, stale keys)
+            o = rng.choice(prev)
+            pe, proj = o["pe"], o.get("proj")
+        op = {"pe": pe, "proj": proj, "cache": rng.random() < 0.7, "override": rng.random() < 0.15}
+        if r < 0.3:
+            op.update(op="gdf", engine=rng.choice(["spatialpandas", "spatialpandas", "geopandas"]), ret_idx=rng.random() < 0.2)
         elif r < 0.45:
             op.update(op="polyc", ret_idx=(pe == "split") or rng.random() < 0.4)
         elif r < 0.6:
@@ -283,7 +341,7 @@ class Convert(Profile):
         for i in range(n):
             r = rng.random()
             if r < 0.72 or i == n - 1:
-                op = self.gen_conv(rng)
+                op = self.gen_conv(rng, [o for o in ops if "pe" in o])
                 op["as"] = f"x{nx}"
                 nx += 1
                 ops.append(op)
@@ -397,7 +455,7 @@ class Convert(Profile):
                 am = np.asarray(g.antimeridian_face_indices).astype(int).ravel()
             except Exception as e:
                 return ("exc", type(e).__name__), [V(f"C15/am/exception({type(e).__name__})", i, str(e)[:200])]
-            fm = self.fm(W)
+            fm = self.fm(W).frame(None)
             got = set(am.tolist())
             vs = []
             if not (set(fm.sure) <= got <= set(fm.sure) | set(fm.unsure)) or len(got) != len(am):
@@ -438,6 +496,11 @@ class Convert(Profile):
             ref = ("exc", type(e).__name__)
         is_exc = lambda c: isinstance(c, tuple) and len(c) == 2 and c[0] == "exc"
         if is_exc(out) or is_exc(ref):
+            documented = op["pe"] == "split" and op.get("proj") is not None and n != "linec"
+            if is_exc(ref) and is_exc(out) and out[1] == ref[1] and not (documented and out[1] == "ValueError"):
+                # only split + projection is documented to fail; any other conversion of a valid
+                # grid with a cartopy projection is promised a result
+                return out, [V(f"{sig}/exception({out[1]})", i, f"{n} {self.args_str(op)} raises {out[1]} (also on a fresh grid): {type(exc).__name__}: {str(exc)[:200]}")]
             if is_exc(ref) and is_exc(out) and out[1] == ref[1]:
                 W.fire("failed_op")
                 W.cov["failed_ops"] += 1
@@ -452,8 +515,8 @@ class Convert(Profile):
         if why:
             return out, [V(f"{sig}/history-dependent", i, f"{n} {self.args_str(op)} after {i} earlier steps differs from the same call on a fresh grid: {why}")]
         # (a) model
-        if op.get("proj") in JUDGED_PROJ:
-            fm = self.fm(W)
+        if True:
+            fm = self.fm(W).frame(op.get("proj"))
             if not fm.unsure:
                 why = self.model_check(fm, op, obj)
                 if why:
@@ -471,43 +534,37 @@ class Convert(Profile):
         return "(" + ", ".join(f"{k}={op[k]!r}" for k in ("pe", "proj", "engine", "cache", "override", "ret_idx", "var") if k in op) + ")"
 
     # ------------------------------------------------------------------
-    def expected_faces(self, fm, pe):
-        if pe == "exclude":
-            return [f for f in range(fm.n) if f not in fm.cross]
-        return list(range(fm.n))
-
     def model_check(self, fm, op, obj):
         n = op["op"]
-        pe, proj = op["pe"], op.get("proj")
+        pe = op["pe"]
         idx = None
         if isinstance(obj, tuple):
             obj, idx = obj
-        faces = self.expected_faces(fm, pe)
+        faces, optional = fm.expected(pe)
         if n in ("gdf", "uxda_gdf"):
             geoms = gdf_geoms(obj)
-            if len(geoms) != len(faces):
-                return ("row-count", f"{len(geoms)} rows for {len(faces)} expected faces (n_face={fm.n}, crossing={sorted(fm.cross)[:8]})")
-            for j, f in enumerate(faces):
-                rings = geom_rings(geoms[j])
+
+            def match(geom, f):
+                rings = geom_rings(geom)
                 if pe == "split" and f in fm.cross:
-                    why = fm.check_pieces(rings, f)
-                    if why:
-                        return ("split-pieces", why)
-                    continue
+                    return fm.check_pieces(rings, f)
                 if len(rings) != 1:
-                    return ("polygon-face", f"row {j}: {len(rings)} rings for the single face {f}")
-                why = fm.match_face(rings[0], f, proj)
-                if why:
-                    return ("polygon-face", f"row {j}: {why}")
+                    return f"{len(rings)} rings for the single face {f}"
+                return fm.match_face(rings[0], f)
+
+            owner, why = align(geoms, faces, optional, match)
+            if why:
+                kind = "split-pieces" if "piece" in why else ("row-count" if "items" in why or "no face left" in why else "polygon-face")
+                return (kind, why + f" (n_face={fm.n}, crossing={sorted(fm.cross)[:8]}, unmappable={sorted(fm.undefined)[:8]})")
             if n == "uxda_gdf":
                 var = op.get("var", 0)
                 col = f"v{var}"
                 if col not in obj.columns:
                     return ("data-column", f"no column {col} in {list(map(str, obj.columns))}")
                 got = self.decode(obj[col].values, var)
-                if len(got) != len(faces) or np.any(got != np.asarray(faces)):
-                    bad = [j for j in range(min(len(got), len(faces))) if got[j] != faces[j]][:5]
-                    return ("data-attribution", f"rows {bad} carry the values of faces {[int(got[j]) for j in bad]} but their polygons are faces {[faces[j] for j in bad]}")
+                if len(got) != len(owner) or np.any(got != np.asarray(owner)):
+                    bad = [j for j in range(min(len(got), len(owner))) if got[j] != owner[j]][:5]
+                    return ("data-attribution", f"rows {bad} carry the values of faces {[int(got[j]) for j in bad]} but their polygons are faces {[owner[j] for j in bad]}" if bad else f"{len(got)} values for {len(owner)} rows")
                 extra = [c for c in map(str, obj.columns) if c not in ("geometry", col)]
                 if extra:
                     return ("data-column", f"unexpected extra columns {extra}")
@@ -525,9 +582,9 @@ class Convert(Profile):
                 if len(vals) != len(paths):
                     return ("data-attribution", f"{len(vals)} values for {len(paths)} polygons")
             if pe != "split":
-                if len(paths) != len(faces):
-                    return ("path-count", f"{len(paths)} polygons for {len(faces)} expected faces (n_face={fm.n}, crossing={sorted(fm.cross)[:8]})")
-                owner = list(faces)
+                owner, why = align(paths, faces, optional, lambda pth, f: fm.match_face(pth, f))
+                if why:
+                    return ("path-count" if "items" in why or "no face left" in why else "polygon-face", why + f" (n_face={fm.n}, crossing={sorted(fm.cross)[:8]}, unmappable={sorted(fm.undefined)[:8]})")
             else:
                 # the library's own map (returned indices, or the data values) names the owner of
                 # every piece; it is then checked against the geometry
@@ -541,36 +598,32 @@ class Convert(Profile):
                     return ("returned-indices", f"{len(owner)} owners for {len(paths)} polygons")
                 if any(b2 < a2 for a2, b2 in zip(owner[:-1], owner[1:])) or sorted(set(owner)) != list(range(fm.n)):
                     return ("path-count", f"pieces are not grouped per face in face order, or a face is missing: owners {owner[:12]}")
-            for j, f in enumerate(owner):
-                if pe == "split" and f in fm.cross:
-                    continue
-                if owner.count(f) != 1:
-                    return ("polygon-face", f"face {f} does not cross the antimeridian but has {owner.count(f)} polygons")
-                why = fm.match_face(paths[j], f, proj)
-                if why:
-                    return ("polygon-face", f"polygon {j}: {why}")
-            if pe == "split":
+                for j, f in enumerate(owner):
+                    if f in fm.cross:
+                        continue
+                    if owner.count(f) != 1:
+                        return ("polygon-face", f"face {f} does not cross the antimeridian but has {owner.count(f)} polygons")
+                    why = fm.match_face(paths[j], f)
+                    if why:
+                        return ("polygon-face", f"polygon {j}: {why}")
                 for f in sorted(fm.cross):
                     why = fm.check_pieces([paths[j] for j in range(len(paths)) if owner[j] == f], f)
                     if why:
                         return ("split-pieces", why)
             if idx is not None:
                 want_idx = owner if pe != "ignore" else []
-                if [int(v) for v in np.asarray(idx).ravel()] != list(want_idx):
+                if [int(v) for v in np.asarray(idx).ravel()] != list(want_idx) and not (pe == "exclude" and optional):
                     return ("returned-indices", f"returned face indices {list(np.asarray(idx).ravel())[:10]} but the polygons belong to faces {list(want_idx)[:10]}")
             if vals is not None and [int(v) for v in vals] != list(owner):
                 bad = [j for j in range(len(owner)) if int(vals[j]) != owner[j]][:5]
                 return ("data-attribution", f"polygons {bad} carry the values of faces {[int(vals[j]) for j in bad]} but are faces {[owner[j] for j in bad]}")
             return None
         if n == "linec":
-            segs = [np.asarray(s) for s in obj.get_segments()]
+            segs = [np.asarray(sg) for sg in obj.get_segments()]
             if pe != "split":
-                if len(segs) != len(faces):
-                    return ("path-count", f"{len(segs)} lines for {len(faces)} expected faces")
-                for j, f in enumerate(faces):
-                    why = fm.match_face(segs[j], f, proj)
-                    if why:
-                        return ("line-face", f"line {j}: {why}")
+                owner, why = align(segs, faces, optional, lambda sg, f: fm.match_face(sg, f))
+                if why:
+                    return ("path-count" if "items" in why or "no face left" in why else "line-face", why)
                 return None
             # split: every non-crossing face's ring appears, in face order; what is left are the
             # pieces of the crossing faces, none of which may span the antimeridian
@@ -579,15 +632,17 @@ class Convert(Profile):
             for f in faces:
                 if f in fm.cross:
                     continue
-                while j < len(segs) and fm.match_face(segs[j], f, proj) is not None:
+                while j < len(segs) and fm.match_face(segs[j], f) is not None:
                     rest.append(segs[j])
                     j += 1
                 if j >= len(segs):
+                    if f in optional:
+                        continue
                     return ("line-face", f"the boundary of face {f} is missing from the lines (or out of order)")
                 j += 1
             rest += segs[j:]
             judged_cross = [f for f in fm.cross if f not in fm.pole_node and f not in fm.pole_enclosed]
-            if len(judged_cross) == len(fm.cross):
+            if len(judged_cross) == len(fm.cross) and not optional:
                 if len(rest) < len(fm.cross):
                     return ("split-pieces", f"{len(rest)} lines left for {len(fm.cross)} crossing faces")
                 for sgm in rest:
